@@ -1,5 +1,4 @@
 import UtilModel.Core.LTS
-import UtilModel.Core.Bcast
 /-!
 # routine: model of `RoutineContainer` and `StateRoutineContainer` (routine/routine.go, routine/state.go)
 
@@ -10,9 +9,12 @@ Read line by line from the code at /repo HEAD. One event = one atomic action of 
   sample section, then it parks on the broadcast channel (`wake`, `wctx`).
   `StateRoutineContainer` calls hold the wrapper's lock around one section on the inner container's lock; since
   nobody else can look at the wrapper's fields in between, the call is linearised at the inner section.
-* every `execute` goroutine (an *instance*): `decide` (left the first select by the wait channel, or found the
-  context alive with no wait channel), `giveUp` (took the ctx branch), `drained` (predecessor exited), `cbin`
-  (the routine function logs its entry), `cbout` (logs its result and returns), `closeExit` (`cancel();
+* every `execute` goroutine (an *instance*): `giveUp` (took the ctx branch of the first select, or found the
+  context cancelled with no wait channel), `drained` (predecessor exited), `cbin` (left the first select by the
+  wait channel — or found the context alive with no wait channel — and the routine function logged its entry;
+  the decision is invisible until that line, so both are one event: with a wait channel the decision needs the
+  predecessor's channel closed, which is monotone; without one it needs the context alive at some moment after
+  creation, i.e. alive at creation), `cbout` (logs its result and returns), `closeExit` (`cancel();
   close(exitedCh)`), `record` (the final critical section: status, retry bookkeeping, exit callbacks).
   Callbacks made *inside* the final section (scripted `BackOff`, exit callbacks) log one line each: the section
   leaves them in `lockq` and `emit` pops them; while `lockq` is non-empty the container lock is held.
@@ -27,7 +29,7 @@ namespace UtilModel.Routine
 
 /-- program counter of one `execute` goroutine -/
 inductive IS where
-  | waiting | entering | draining | running | returned | closed
+  | waiting | draining | running | returned | closed
 deriving DecidableEq, Repr
 
 structure Inst where
@@ -36,6 +38,7 @@ structure Inst where
   waitOn : Option Nat
   st : IS := .waiting
   cancelled : Bool := false
+  born : Bool := false             -- the context was already cancelled when the instance was created
   out : Option Nat := none
   recorded : Bool := false
 deriving DecidableEq, Repr
@@ -84,7 +87,7 @@ inductive Res where
 deriving DecidableEq, Repr
 
 inductive CallSt where
-  | invoked | done (r : Res) | parked (ch : Nat) | wcancel | finished
+  | invoked | done (r : Res) | parked (woken : Bool) | wcancel | finished
 deriving DecidableEq, Repr
 
 structure Call where
@@ -129,7 +132,6 @@ inductive Ev where
   | wctx (a : Nat)
   | envCancel (c : Nat)
   | envCancelW (a : Nat)
-  | decide (n : Nat)
   | giveUp (n : Nat)
   | drained (n : Nat)
   | cbin (k n f arg root : Nat)
@@ -156,7 +158,6 @@ structure St where
   ent : List Nat := []             -- k-th logged entry ↦ instance
   sval : Nat := 0
   sfn : Nat := 0
-  bc : Bcast := {}
   wcx : List Nat := []             -- WaitExited calls whose context was cancelled
   lockq : List Obs := []           -- lines still to be logged by the running critical section
 deriving DecidableEq, Repr
@@ -214,7 +215,7 @@ def startRec (s : St) (r c : Nat) (w : Option Nat) (force : Bool) : St :=
     else
       let s1 := stopRec s r
       let n := s1.insts.length
-      { s1 with insts := s1.insts ++ [{ rid := r, root := c, waitOn := w }],
+      { s1 with insts := s1.insts ++ [{ rid := r, root := c, waitOn := w, born := s.croots.contains c }],
                 recs := s1.recs.set r { x.stopped with err := none, success := false, exited := false,
                                                        exitedCh := some n, rctx := some n, cancelOf := some n } }
 
@@ -231,7 +232,16 @@ def getRunning (s : St) : Bool :=
                 | none => false)
    | none => false)
 
-def St.bcastNow (s : St) : St := { s with bc := s.bc.broadcast }
+/-- a waiter parked on the broadcast channel is woken by the next `broadcast()` -/
+def Call.wakeUp (c : Call) : Call :=
+  match c.st with
+  | .parked _ => { c with st := .parked true }
+  | _ => c
+
+/-- `broadcast()`: close the current wait channel. Every `WaitExited` parked since the previous broadcast
+holds exactly that channel (Core/Bcast: one channel per generation), so closing it = marking all of them
+woken; a waiter that samples later gets a fresh channel (`parked false`). -/
+def St.bcastNow (s : St) : St := { s with calls := s.calls.map Call.wakeUp }
 
 /-- first half of `setRoutineLocked` (routine.go:158-173): detach the previous record -/
 def detachPrev (s : St) : St × Option Nat × Bool :=
@@ -365,8 +375,7 @@ def waitSample (s0 : St) (rinr : Bool) : St × CallSt :=
                    else (rinr, none)
        | none => (rinr, none))
     | none => (rinr, none)
-  let g := s.bc.getWaitCh
-  ({ s with bc := g.1 }, if ex.1 then .done (.wx ex.2) else .parked g.2)
+  (s, if ex.1 then .done (.wx ex.2) else .parked false)
 
 def instClosed (s : St) (n : Nat) : Bool :=
   match s.insts[n]? with
@@ -404,8 +413,7 @@ def recordCS (s : St) (cf : Cfg) (n : Nat) (x : Inst) (dur : Bool) : Option St :
       some { s2 with timers := tms
                      recs := s2.recs.set x.rid { r with err := x.out, success := succ, exited := true,
                                                         exitedCh := none, retry := rt }
-                     bc := s2.bc.broadcast
-                     lockq := boLines cf succ isCur dur ++ cbLines cf x.out }
+                     lockq := boLines cf succ isCur dur ++ cbLines cf x.out }.bcastNow
     else if dur then none else some s1
 
 /-- the retry timer's critical section (routine.go:335-340) -/
@@ -447,7 +455,7 @@ def stepI (s : St) : Ev → Option St
     match s.calls[a]? with
     | some c =>
       (match c.st with
-       | .parked ch => if s.bc.closed ch then some (setCall s a { c with st := .invoked }) else none
+       | .parked w => if w then some (setCall s a { c with st := .invoked }) else none
        | _ => none)
     | none => none
   | .wctx a =>
@@ -463,13 +471,6 @@ def stepI (s : St) : Ev → Option St
     | some c => (match c.op with
                  | .waitExited _ => some { s with wcx := a :: s.wcx }
                  | _ => none)
-    | none => none
-  | .decide n =>
-    match s.insts[n]? with
-    | some x =>
-      if x.st = .waiting ∧ predClosed s x ∧ (x.waitOn = none → s.isCancelled x = false) then
-        some (setInst s n { x with st := .entering })
-      else none
     | none => none
   | .giveUp n =>
     match s.insts[n]? with
@@ -491,7 +492,8 @@ def stepI (s : St) : Ev → Option St
     | some x =>
       (match s.recs[x.rid]? with
        | some r =>
-         if x.st = .entering ∧ k = s.ent.length ∧ f = r.fn ∧ arg = r.arg ∧ root = x.root then
+         if x.st = .waiting ∧ predClosed s x ∧ (x.waitOn = none → x.born = false) ∧
+            k = s.ent.length ∧ f = r.fn ∧ arg = r.arg ∧ root = x.root then
            some { (setInst s n { x with st := .running }) with ent := s.ent ++ [n] }
          else none
        | none => none)
@@ -505,7 +507,15 @@ def stepI (s : St) : Ev → Option St
     | none => none
   | .closeExit n =>
     match s.insts[n]? with
-    | some x => if x.st = .returned then some (setInst s n { x with st := .closed, cancelled := true }) else none
+    | some x =>
+      if x.st = .returned then
+        -- an instance that is no longer its record's current one finds `r.ctx != ctx` in its final section:
+        -- that section has no effect and is merged into this event
+        let noop := match s.recs[x.rid]? with
+          | some r => r.rctx != some n
+          | none => true
+        some (setInst s n { x with st := .closed, cancelled := true, recorded := noop })
+      else none
     | none => none
   | .record n dur =>
     match s.cfg, s.insts[n]? with
@@ -540,11 +550,42 @@ def stepI (s : St) : Ev → Option St
     | none => none
   | .quiesce _ _ => none
 
+/-- instance `n` is closed, its final section is still to come, and its record is no longer the container's:
+that section only reports the exit (callbacks, `Reset`), it cannot influence anything else -/
+def deadPending (s : St) (n : Nat) : Option (Option Nat) :=
+  match s.insts[n]? with
+  | some x =>
+    if x.st == .closed && !x.recorded && s.routine != some x.rid then some x.out else none
+  | none => none
+
+/-- is there a smaller instance in the same situation with the same result? (then the final sections of the
+two are interchangeable and only the smaller one is tried: symmetry reduction of the search, not of `step`) -/
+def shadowed (s : St) (n : Nat) : Bool :=
+  match deadPending s n with
+  | some o => (List.range n).any fun m => deadPending s m == some o
+  | none => false
+
+/-- would a woken `WaitExited` that re-samples now do anything but park again? (a waiter that has been woken
+but has not yet re-sampled can still do everything a re-parked one can: lazy choice) -/
+def wakeUseful (s : St) (a : Nat) : Bool :=
+  match s.calls[a]? with
+  | some c =>
+    (match c.op with
+     | .waitExited rinr => normCtx s != s || (waitSample s rinr).2 != .parked false
+     | _ => false)
+  | none => false
+
 /-- internal events worth trying -/
 def cands (s : St) : List Ev :=
-  ((List.range s.calls.length).flatMap fun a => [.cs a, .wake a, .wctx a]) ++
+  ((List.range s.calls.length).flatMap fun a =>
+    [Ev.cs a, .wctx a] ++ (if wakeUseful s a then [Ev.wake a] else [])) ++
   ((List.range s.insts.length).flatMap fun n =>
-    [.decide n, .giveUp n, .drained n, .closeExit n, .record n false, .record n true]) ++
+    -- `giveUp` is offered only once the predecessor has exited: a cancelled waiter that has not yet looked
+    -- at its channels is indistinguishable from one that already took the ctx branch (lazy choice)
+    (match s.insts[n]? with
+     | some x => if predClosed s x then [Ev.giveUp n] else []
+     | none => []) ++
+    [.drained n, .closeExit n] ++ (if shadowed s n then [] else [Ev.record n false, .record n true])) ++
   ((List.range s.timers.length).flatMap fun t => [.fire t, .timerCS t])
 
 def pendingIds (s : St) : List Nat :=
@@ -571,7 +612,7 @@ def Call.quiet (c : Call) : Bool :=
 /-- nothing can move without a new API call, script command or environment action -/
 def quiescent (s : St) : Bool :=
   s.lockq.isEmpty && (cands s).all (fun e => (stepI s e).isNone) &&
-  s.calls.all Call.quiet && s.insts.all (fun x => x.st != .entering)
+  s.calls.all Call.quiet
 
 def step (s : St) : Ev → Option St
   | .quiesce pend run =>
